@@ -222,7 +222,7 @@ class Builtins:
         if isinstance(o, list) and not isinstance(o, GeneratorList):
             if attr == "append":
                 def app(a, k):
-                    I.heap_log.append(("mutate-list", id(o), attr, I.where()))
+                    I.heap_log.append(("mutate-list", I.heap_log.note(o), attr, I.where()))
                     o.append(a[0])
                 return Builtin("list.append", app)
         if isinstance(o, SDict):
@@ -248,7 +248,7 @@ class Builtins:
                 return Builtin("set." + attr, rel)
             if attr in ("update", "add"):
                 def upd(a, k):
-                    self.I.heap_log.append(("mutate-set", id(o), attr, self.I.where()))
+                    self.I.heap_log.append(("mutate-set", self.I.heap_log.note(o), attr, self.I.where()))
                     for s_ in a:
                         if attr == "add":
                             o.term = z3.Store(o.term, self.key_term(s_), z3.BoolVal(True))
@@ -377,7 +377,7 @@ class Builtins:
         if t is ast.Add:
             if isinstance(a, list) and isinstance(b, list):
                 r = list(a) + list(b)
-                I.heap_log.append(("alloc-list", id(r), None, I.where()))
+                I.heap_log.append(("alloc-list", I.heap_log.note(r), None, I.where()))
                 return r
             if isinstance(a, tuple) and isinstance(b, tuple):
                 return a + b
@@ -391,7 +391,7 @@ class Builtins:
                 raise Unsupported("sequence * bool")
             r = type(seq)(list(seq) * n) if isinstance(seq, tuple) else list(seq) * n
             if isinstance(r, list):
-                I.heap_log.append(("alloc-list", id(r), None, I.where()))
+                I.heap_log.append(("alloc-list", I.heap_log.note(r), None, I.where()))
             return r
         if isinstance(a, (list, tuple, SDict, SSet)) or isinstance(b, (list, tuple, SDict, SSet)):
             raise Unsupported(f"operator {t.__name__} on containers is not modelled ({type(a).__name__}, {type(b).__name__}) at {I.where()}")
@@ -605,7 +605,7 @@ class Builtins:
     def new_dict(self):
         d = SDict()
         d.alloc_frame = self.I.frames[-1].frame_id if self.I.frames else None
-        self.I.heap_log.append(("alloc-dict", id(d), None, self.I.where()))
+        self.I.heap_log.append(("alloc-dict", self.I.heap_log.note(d), None, self.I.where()))
         return d
 
     def _key_eq(self, k1, k2):
@@ -664,7 +664,7 @@ class Builtins:
         I = self.I
         if isinstance(o, SDict):
             if not new:
-                I.heap_log.append(("mutate-dict", id(o), None, I.where()))
+                I.heap_log.append(("mutate-dict", I.heap_log.note(o), None, I.where()))
             i = self.dict_find(o, k)
             if i is not None:
                 o.entries[i] = (o.entries[i][0], v)
@@ -673,7 +673,7 @@ class Builtins:
             return o
         if isinstance(o, list) and isinstance(k, int) and not isinstance(k, bool):
             if not new:
-                I.heap_log.append(("mutate-list", id(o), "[]=", I.where()))
+                I.heap_log.append(("mutate-list", I.heap_log.note(o), "[]=", I.where()))
             if -len(o) <= k < len(o):
                 o[k] = v
                 return o
@@ -692,7 +692,7 @@ class Builtins:
         r = o[lo:hi]
         if isinstance(r, list):
             r = list(r)
-            self.I.heap_log.append(("alloc-list", id(r), None, self.I.where()))
+            self.I.heap_log.append(("alloc-list", self.I.heap_log.note(r), None, self.I.where()))
         return r
 
     def starstar(self, d):
@@ -749,7 +749,7 @@ class Builtins:
 
     def fresh_set(self, term):
         r = SSet(term)
-        self.I.heap_log.append(("alloc-set", id(r), None, self.I.where()))
+        self.I.heap_log.append(("alloc-set", self.I.heap_log.note(r), None, self.I.where()))
         return r
 
     def make_set(self, elts):
@@ -912,7 +912,7 @@ class Builtins:
         if a and isinstance(a[0], gmode.SList):
             return gexec.copy_list(self.I, a[0])
         r = list(self.iterate(a[0])) if a else []
-        self.I.heap_log.append(("alloc-list", id(r), None, self.I.where()))
+        self.I.heap_log.append(("alloc-list", self.I.heap_log.note(r), None, self.I.where()))
         return r
 
     def b_tuple(self, a, k):
